@@ -22,17 +22,20 @@ UNIQ = ('Exit', 'Beacon')
 
 
 def mutable_parts(s):
-    """ids of every mutable component reachable from a State"""
+    """ids of every mutable component reachable from a State.  Objects without any instance state (Floor, Wall, MovingObstacle, the
+    no-object placeholder) are values: sharing one between two states cannot make a change of either visible in the other."""
     ids = {id(s.grid): 'grid', id(s.grid.objects): 'rows', id(s.agent): 'agent', id(s.agent.transform): 'transform'}
     for row in s.grid.objects:
         ids[id(row)] = 'row'
         for o in row:
             while o is not None:
-                ids[id(o)] = type(o).__name__
+                if getattr(o, '__dict__', None):
+                    ids[id(o)] = type(o).__name__
                 o = getattr(o, 'content', None)
     o = s.agent.grid_object
     while o is not None:
-        ids[id(o)] = 'held ' + type(o).__name__
+        if getattr(o, '__dict__', None):
+            ids[id(o)] = 'held ' + type(o).__name__
         o = getattr(o, 'content', None)
     return ids
 
